@@ -796,7 +796,15 @@ TOP:
 				}
 			}
 		case method != nil:
-			args, aerr := root.formReflectArgs(ov, vars, field, method)
+			// The arguments are checked and coerced according to the
+			// declared argument types just like the arguments handed to a
+			// Resolver or AnyResolver.
+			argMap, ea2 := root.formArgs(vars, field, fd)
+			if 0 < len(ea2) {
+				ea = append(ea, ea2...)
+				return
+			}
+			args, aerr := root.formReflectArgs(ov, argMap, field, fd, method)
 			if aerr != nil {
 				ea = append(ea, resWarn(field.line, field.col, "%s", aerr))
 				return
@@ -820,35 +828,28 @@ TOP:
 
 func (root *Root) formReflectArgs(
 	ov reflect.Value,
-	vars map[string]interface{},
+	argMap map[string]interface{},
 	field *Field,
+	fd *FieldDef,
 	method *reflect.Value) (args []reflect.Value, err error) {
 
 	// The arguments come from the request. Make sure the call can be made
 	// with them, reflect.Value.Call panics if the number or the types of the
 	// arguments do not fit the method.
 	mt := method.Type()
-	avs := field.sortedArgs()
-	if mt.IsVariadic() || mt.NumIn() != len(avs)+1 {
-		return nil, fmt.Errorf("%w: %s takes %d arguments, %d provided", ErrMeta, field.Name, mt.NumIn()-1, len(avs))
+	decl := fd.args.list
+	if mt.IsVariadic() || mt.NumIn() != len(decl)+1 {
+		return nil, fmt.Errorf("%w: %s takes %d arguments, %d declared", ErrMeta, field.Name, mt.NumIn()-1, len(decl))
 	}
 	if !ov.Type().AssignableTo(mt.In(0)) {
 		return nil, fmt.Errorf("%w: %s is bound to a %s, not a %s", ErrMeta, field.Name, mt.In(0), ov.Type())
 	}
-	args = make([]reflect.Value, 0, len(avs)+1)
+	args = make([]reflect.Value, 0, len(decl)+1)
 	args = append(args, ov)
-	// Build the args by combining provided args and variable values as
-	// appropriate.
-	for i, av := range avs {
-		var v interface{}
-		name := ""
-		if av != nil {
-			name = av.Arg
-			v = av.Value
-			if vr, ok := v.(Var); ok {
-				v = vars[string(vr)]
-			}
-		}
+	// The values in argMap are already coerced to the declared types, an
+	// argument not provided is not in the map.
+	for i, a := range decl {
+		v := argMap[a.N]
 		pt := mt.In(i + 1)
 		if v == nil {
 			switch pt.Kind() {
@@ -856,7 +857,7 @@ func (root *Root) formReflectArgs(
 				args = append(args, reflect.Zero(pt))
 				continue
 			}
-			return nil, fmt.Errorf("%w: argument %d %s of %s is missing or null", ErrCoerce, i+1, name, field.Name)
+			return nil, fmt.Errorf("%w: argument %d %s of %s is missing or null", ErrCoerce, i+1, a.N, field.Name)
 		}
 		rv := reflect.ValueOf(v)
 		switch {
@@ -866,7 +867,7 @@ func (root *Root) formReflectArgs(
 			rv.Kind() == reflect.String && pt.Kind() == reflect.String:
 			rv = rv.Convert(pt)
 		default:
-			return nil, fmt.Errorf("%w a %T into a %s for argument %s of %s", ErrCoerce, v, pt, name, field.Name)
+			return nil, fmt.Errorf("%w a %T into a %s for argument %s of %s", ErrCoerce, v, pt, a.N, field.Name)
 		}
 		args = append(args, rv)
 	}
